@@ -439,6 +439,9 @@ func (g *gen) reqHeaders(ctype string) http.Header {
 	case 1:
 		h["X-Echo"] = []string{"a", fmt.Sprintf("b%d", g.pick(3))}
 	}
+	if g.pick(3) == 0 { // round 7 (mutate.go): the per-request attribute the mutating middleware is conditioned on
+		h.Set(mutHeader, fmt.Sprintf("m%d", g.pick(5)))
+	}
 	return h
 }
 
